@@ -42,7 +42,7 @@ func SharedState(repo string) (names []string, ok bool) {
 	if len(files) == 0 {
 		return nil, false
 	}
-	info := &types.Info{Types: map[ast.Expr]types.TypeAndValue{}, Uses: map[*ast.Ident]types.Object{}, Defs: map[*ast.Ident]types.Object{}}
+	info := &types.Info{Types: map[ast.Expr]types.TypeAndValue{}, Uses: map[*ast.Ident]types.Object{}, Defs: map[*ast.Ident]types.Object{}, Selections: map[*ast.SelectorExpr]*types.Selection{}}
 	conf := types.Config{Importer: importer.ForCompiler(fset, "source", nil), Error: func(error) {}}
 	pkg, _ := conf.Check("mellium.im/xmpp/styling", fset, files, info)
 	if pkg == nil {
@@ -117,34 +117,92 @@ func SharedState(repo string) (names []string, ok bool) {
 		}
 		return false
 	}
-	elemBasic := func(t types.Type) bool {
+	// flat: a value of this type holds no reference, so reading it is taking a copy
+	var flat func(t types.Type, depth int) bool
+	flat = func(t types.Type, depth int) bool {
+		if t == nil || depth > 6 {
+			return false
+		}
+		switch u := t.Underlying().(type) {
+		case *types.Basic:
+			return u.Kind() != types.UnsafePointer
+		case *types.Array:
+			return flat(u.Elem(), depth+1)
+		case *types.Struct:
+			for i := 0; i < u.NumFields(); i++ {
+				if !flat(u.Field(i).Type(), depth+1) {
+					return false
+				}
+			}
+			return true
+		case *types.Tuple:
+			for i := 0; i < u.Len(); i++ {
+				if !flat(u.At(i).Type(), depth+1) {
+					return false
+				}
+			}
+			return true
+		}
+		return false
+	}
+	elemFlat := func(t types.Type) bool {
 		if t == nil {
 			return false
 		}
 		switch u := t.Underlying().(type) {
 		case *types.Slice:
-			return basic(u.Elem())
+			return flat(u.Elem(), 0)
 		case *types.Array:
-			return basic(u.Elem())
+			return flat(u.Elem(), 0)
 		case *types.Map:
-			return basic(u.Elem())
+			return flat(u.Elem(), 0) && flat(u.Key(), 0)
 		case *types.Basic:
 			return u.Info()&types.IsString != 0
 		}
 		return false
 	}
+	typeOf := func(e ast.Node) types.Type {
+		if x, ok := e.(ast.Expr); ok {
+			if tv, ok := info.Types[x]; ok {
+				return tv.Type
+			}
+			if id, ok := x.(*ast.Ident); ok {
+				if o := info.Uses[id]; o != nil {
+					return o.Type()
+				}
+			}
+		}
+		return nil
+	}
 	pureStd := map[string]bool{"bytes": true, "strings": true, "unicode": true, "unicode/utf8": true}
 
 	// readOnly: is this use (the ident is the last node of stack) a read that neither changes
-	// the variable nor lets it or its elements escape?
+	// the variable nor lets it, or anything reachable from it, escape?  The use is followed
+	// through index, field and slice expressions (`v[i].f`, `v[a:b]`); what is finally read must
+	// be handed to len/cap or a pure standard library predicate, ranged over for reference-free
+	// elements, compared, or be a reference-free value (a copy).
 	readOnly := func(stack []ast.Node, v *types.Var) bool {
 		i := len(stack) - 1
 		node := ast.Node(stack[i])
-		isElem := false // node now denotes an element / a value copied out of the variable
 		for i > 0 {
 			parent := stack[i-1]
 			switch p := parent.(type) {
 			case *ast.ParenExpr:
+			case *ast.IndexExpr:
+				if p.X != node {
+					return flat(typeOf(node), 0) // used as an index: a value
+				}
+			case *ast.SliceExpr:
+				if p.X != node {
+					return flat(typeOf(node), 0)
+				}
+			case *ast.SelectorExpr:
+				if p.X != node {
+					return false
+				}
+				if sel, ok := info.Selections[p]; !ok || sel.Kind() != types.FieldVal {
+					return false // a method of the variable (or unresolved): may write, may alias
+				}
 			case *ast.CallExpr:
 				if p.Fun == node {
 					return false // calling a function variable: its behaviour is whatever was stored
@@ -166,25 +224,10 @@ func SharedState(repo string) (names []string, ok bool) {
 						}
 					}
 				}
-				return isElem
-			case *ast.IndexExpr:
-				if p.X != node {
-					return true // used as an index: a value
-				}
-				if !isElem && !elemBasic(v.Type()) {
-					return false
-				}
-				isElem = true
-			case *ast.SliceExpr:
-				if p.X != node {
-					return true
-				}
-				if isElem {
-					return true
-				}
+				return flat(typeOf(node), 0)
 			case *ast.RangeStmt:
 				if p.X == node {
-					return isElem || elemBasic(v.Type()) || basic(v.Type())
+					return elemFlat(typeOf(node))
 				}
 				return false // range key/value position: assigned
 			case *ast.BinaryExpr:
@@ -193,8 +236,8 @@ func SharedState(repo string) (names []string, ok bool) {
 				if p.Op == token.AND || p.Op == token.ARROW {
 					return false
 				}
-				return true
-			case *ast.IncDecStmt:
+				return flat(typeOf(node), 0)
+			case *ast.IncDecStmt, *ast.StarExpr:
 				return false
 			case *ast.AssignStmt:
 				for _, l := range p.Lhs {
@@ -202,19 +245,11 @@ func SharedState(repo string) (names []string, ok bool) {
 						return false
 					}
 				}
-				return isElem || basic(v.Type())
-			case *ast.ValueSpec:
-				return isElem || basic(v.Type())
-			case *ast.SelectorExpr:
-				return false // field or method of the variable: may write, may alias
-			case *ast.StarExpr:
-				return false
-			case *ast.KeyValueExpr, *ast.CompositeLit, *ast.ReturnStmt, *ast.SendStmt:
-				return isElem || basic(v.Type())
+				return flat(typeOf(node), 0)
 			case *ast.IfStmt, *ast.SwitchStmt, *ast.CaseClause, *ast.ForStmt, *ast.ExprStmt:
 				return true
 			default:
-				return isElem || basic(v.Type())
+				return flat(typeOf(node), 0)
 			}
 			node = parent
 			i--
